@@ -56,6 +56,19 @@ def panic_sites(I, res):
     return out
 
 
+def min_align_validation(e):
+    """the must-facts of the panic site say that the const parameter MIN_ALIGN is not a supported alignment"""
+    M = sym('MIN_ALIGN')
+    for f in e.state.facts:
+        if f[0] == 'lt' and len(f) == 3 and is_c(f[1]) and f[2] == M:
+            return True
+        if f[0] == 'nottrue' and isinstance(f[1], tuple) and f[1] == ('app', 'is_pow2', M):
+            return True
+        if f[0] == 'nottrue' and isinstance(f[1], tuple) and f[1][0] == 'call' and f[1][1].endswith('is_power_of_two') and f[1][2] == (M,):
+            return True
+    return False
+
+
 MAY_PANIC = ('Result::<T, E>::unwrap_err', 'Result::<T, E>::expect_err', 'Index::index', 'IndexMut::index_mut', '::copy_from_slice', '::split_at', '::split_at_mut',
              'slice::index::<impl core::ops::index::Index<I> for [T]>::index', 'slice::index::<impl core::ops::index::IndexMut<I> for [T]>::index_mut')
 
@@ -78,6 +91,10 @@ def run(ctx, config='rel-all'):
         for k, evs in sorted(sites.items()):
             if k in JUSTIFIED:
                 ctx.ok('R1', '%s: reachable %s in %s' % (b['meta']['name'], k[1], k[0]), 'justified: ' + JUSTIFIED[k])
+            elif all(min_align_validation(e) for e in evs):
+                # wherever the two constructor assertions sit (inline, or in a helper they were extracted into): the panic is
+                # reachable only for an unsupported MIN_ALIGN, which C04 requires to be refused with a panic
+                ctx.ok('R1', '%s: reachable %s in %s' % (b['meta']['name'], k[1], k[0]), 'justified: panics only under !is_power_of_two(MIN_ALIGN) or MIN_ALIGN > CHUNK_ALIGN (required constructor validation, C04)')
             else:
                 ctx.violation('R1', k[0], 'panic:%s' % k[1], 'a panic/abort site (%s in %s) is feasible from the fallible method %s [%s]' % (k[1], k[0], b['meta']['name'], ' > '.join(arena.short(s[0]) for s in evs[0].stack)), evs[0].span)
         if not sites:
